@@ -107,7 +107,7 @@ BATCH = {'smtp': 40, 'mx': 20, 'http': 20, 'pipe': 8}
 # ------------------------------------------------------------------------------------------------
 # process-wide helpers
 # ------------------------------------------------------------------------------------------------
-_G = {'uid': 0, 'crashes': collections.Counter()}
+_G = {'uid': 0, 'crashes': collections.Counter(), 'owners': {}}
 
 
 def _uid():
@@ -117,7 +117,21 @@ def _uid():
 
 def _hub_hook(context, type_, value, tb):
     # relay client greenlets that die with an unexpected exception: counted, part of the evidence
-    _G['crashes'][getattr(type_, '__name__', str(type_))] += 1
+    name = getattr(type_, '__name__', str(type_))
+    _G['crashes'][name] += 1
+    owner = _G['owners'].get(id(getattr(context, 'queue', None)))
+    if owner is not None:
+        owner.append(name)
+
+
+def _own(relay):
+    """Attribute deaths of this relay's pool-client greenlets (they share relay.queue) to one case."""
+    lst = _G['owners'][id(relay.queue)] = []
+    return lst
+
+
+def _disown(relay):
+    _G['owners'].pop(id(relay.queue), None)
 
 
 gevent.get_hub().print_exception = _hub_hook
@@ -489,6 +503,7 @@ def exec_smtp(case):
     if case.get('reuse'):
         kw['idle_timeout'] = 0.3
     relay = (StaticLmtpRelay if case['lmtp'] else StaticSmtpRelay)('next-hop.test', 25, **kw)
+    crashes = _own(relay)
     rcpts = ['r%d@d.test' % i for i in range(case['nrcpt'])]
     nmsg = 2 if case.get('reuse') else 1
     expects = case['expect'] if case.get('reuse') else [case['expect']]
@@ -511,8 +526,9 @@ def exec_smtp(case):
     finally:
         gevent.killall(list(relay.pool), block=False)
         D.kill()
+        _disown(relay)
     return {'msgs': msgs, 'fired': sorted(fired), 'nfaults': len(case['faults']),
-            'log': {'connects': D.connects, 'conns': _conn_log(D)},
+            'log': {'connects': D.connects, 'conns': _conn_log(D), 'client_greenlets_died_with': list(crashes)},
             'tls_seen': any(c.tls for c in D.conns), 'reused': any(len(c.txns) > 1 for c in D.conns)}
 
 
@@ -764,7 +780,7 @@ HTTP_CONN_FAULTS = collections.OrderedDict([
     ('close-before-response', ['close']),
     ('garbage-status-line', ['raw', b'hello this is not http\r\n\r\n']),
     ('garbage-status-code', ['raw', b'HTTP/1.1 abc OK\r\nContent-Length: 0\r\n\r\n']),
-    ('headers-then-close', ['raw', b'HTTP/1.1 200 OK\r\nContent-Length: 2\r\nX-Unfinished: y']),
+    ('error-headers-then-close', ['raw', b'HTTP/1.1 503 Service Unavailable\r\nContent-Length: 2\r\nX-Unfinished: y']),
     ('stall', ['stall']),
     ('partial-then-stall', ['raw', b'HTTP/1.1 200 OK\r\nContent-Le', 'stall']),
 ])
@@ -796,7 +812,8 @@ def gen_http_all():
     for name, act in HTTP_CONN_FAULTS.items():
         for nrcpt in (1, 2):
             cases.append({'kind': 'http', 'stage': 'connection', 'outcome': name, 'nrcpt': nrcpt,
-                          'script': [act] if act else [], 'refused': act is None, 'expect': ['T'] * nrcpt,
+                          'script': [act] if act else [], 'refused': act is None,
+                          'expect': ['F' if name == 'error-headers-then-close' else 'T'] * nrcpt,
                           'single': True, 'reuse': None, 'slow': 'stall' in name})
     # connection reuse: first request scripted, second request clean
     firsts = [('status200', 'hdr-250', ['respond', 200, 'OK', HDRS['250']], 'D'),
@@ -819,13 +836,14 @@ def exec_http(case):
     uid = _uid()
     path = '/c11/%d' % uid
     ent = {'script': case['script'], 'requests': []}
-    T = T_STALL if case.get('slow') else T_FAST
+    T = T_STALL            # loopback HTTP: keeps the isolated confirmation of hangs affordable
     if case.get('refused'):
         url = 'http://127.0.0.1:%d%s' % (refused_port, path)
     else:
         HTTP_TABLE[path] = ent
         url = 'http://127.0.0.1:%d%s' % (port, path)
     relay = HttpRelay(url, ehlo_as='me', timeout=T, idle_timeout=0.3 if case.get('reuse') else None)
+    crashes = _own(relay)
     rcpts = ['r%d@h.test' % i for i in range(case['nrcpt'])]
     nmsg = 2 if case.get('reuse') else 1
     expects = case['expect'] if case.get('reuse') else [case['expect']]
@@ -847,9 +865,11 @@ def exec_http(case):
     finally:
         gevent.killall(list(relay.pool), block=False)
         HTTP_TABLE.pop(path, None)
+        _disown(relay)
     conns = [rq['conn'] for rq in ent['requests']]
     return {'msgs': msgs, 'fired': [0], 'nfaults': 1,
-            'log': {'requests': [{k: v for k, v in rq.items() if k != 'conn'} for rq in ent['requests']]},
+            'log': {'requests': [{k: v for k, v in rq.items() if k != 'conn'} for rq in ent['requests']],
+                    'client_greenlets_died_with': list(crashes)},
             'reused': len(conns) > 1 and len(set(conns)) == 1}
 
 
@@ -1047,7 +1067,7 @@ def labels(case):
 
 # Recognised root causes: (clause, kind-ish, discriminator) -> mechanism.  Anything else is
 # 'unclassified/<clause>/...' with enough structure that two unknown causes do not collapse.
-def classify(clause, case, m, extra=''):
+def classify(clause, case, m, extra='', crashes=()):
     k, fam, outcome, pl = labels(case)
     res = m['result']
     if clause == 'type':
@@ -1072,13 +1092,20 @@ def classify(clause, case, m, extra=''):
                 ('stall' in outcome or 'partial-silence' in outcome):
             return 'attempt-does-not-end/smtp/eod-reply-never-arrives/pipelining'
         if k == 'http':
-            if case['stage'] == 'connection':
-                return 'attempt-does-not-end/http/%s' % outcome
-            if 'unparsable-999' in outcome:
-                return 'attempt-does-not-end/http/out-of-range-code-in-X-Smtp-Reply'
-            if case.get('reuse'):
-                return 'attempt-does-not-end/http/second-request-on-reused-connection'
-            return 'unclassified/attempt-does-not-end/http/%s/%s' % (case['stage'], outcome)
+            died = sorted(set(crashes))
+            if died == ['ValueError'] and 'unparsable-999' in outcome:
+                return 'attempt-does-not-end/http/X-Smtp-Reply-out-of-range-code->ValueError'
+            if died == ['AttributeError'] and b'command=' in (case['script'][0][3] or b''):
+                return 'attempt-does-not-end/http/X-Smtp-Reply-command-param->AttributeError'
+            if died == ['ResponseNotReady'] and case.get('reuse') and m['label'] == 'msg2':
+                return 'attempt-does-not-end/http/reused-connection-previous-response-unread->ResponseNotReady'
+            if died and all(d in ('ConnectionRefusedError', 'RemoteDisconnected', 'BadStatusLine', 'ConnectionResetError',
+                                  'IncompleteRead', 'BrokenPipeError', 'LineTooLong') for d in died) \
+                    and case['stage'] == 'connection':
+                return 'attempt-does-not-end/http/socket-or-protocol-error-kills-client-greenlet'
+            if not died and 'stall' in outcome:
+                return 'attempt-does-not-end/http/timeout-swallowed-result-never-set'
+            return 'unclassified/attempt-does-not-end/http/%s/%s/%s' % (case['stage'], outcome, '+'.join(died) or '-')
         return 'unclassified/attempt-does-not-end/%s/%s/%s/%s' % (k, fam, outcome, pl)
     if clause == 'safety':
         if k in ('smtp', 'lmtp'):
@@ -1126,8 +1153,8 @@ def judge(case, obs, R=None):
         if mi == 1 and case.get('reuse'):
             hit('reuse-second-message-judged')
         if res['end'] == 'hang':
-            V.append((classify('ends', case, m), 'attempt() still blocked after %.1fs = %dx the configured timeout '
-                      '[%s]' % (res['watchdog_s'], K, tag), wit))
+            V.append((classify('ends', case, m, crashes=obs['log'].get('client_greenlets_died_with', ())),
+                      after %.1fs = %dx the configured timeout [%s]' % (res['watchdog_s'], K, tag), wit))
             continue
         if res['end'] in ('raised-other', 'returned-error-object', 'returned-bad-type'):
             what = {'raised-other': 'attempt() raised %s, not a RelayError: %s',
